@@ -292,3 +292,4 @@ impl core::hash::Hasher for THD {
         self.0
     }
 }
+
